@@ -225,6 +225,11 @@ type nxCfg struct {
 type nxMsg struct {
 	m   pb.Message
 	seq uint64
+	sum uint64
+}
+
+func nxMsgSum(m pb.Message) uint64 {
+	return verifkit.Hash64(string(pb.MustMarshal(&m)))
 }
 
 type nxCluster struct {
@@ -508,7 +513,7 @@ func (c *nxCluster) flush(h *nxHost) {
 			continue // lost in the partition
 		}
 		c.seq++
-		c.msgs = append(c.msgs, nxMsg{m: m, seq: c.seq})
+		c.msgs = append(c.msgs, nxMsg{m: m, seq: c.seq, sum: nxMsgSum(m)})
 	}
 	h.outbox = nil
 }
@@ -525,6 +530,9 @@ func (c *nxCluster) chanPos(i int) int {
 
 func (c *nxCluster) take(i int, keep bool) pb.Message {
 	m := c.msgs[i].m
+	if sum := nxMsgSum(m); sum != c.msgs[i].sum {
+		c.fail("C02: a queued %s message from %d to %d changed after the node handed it to the transport", m.Type, m.From, m.To)
+	}
 	if !keep {
 		c.msgs = append(c.msgs[:i], c.msgs[i+1:]...)
 	}
